@@ -859,7 +859,25 @@ func (g *gen) writeBuiltinNumType(b *buffer, recv *a.Expr, method t.ID, args []*
 		return nil
 
 	case t.IDHighBits:
-		// "recv.high_bits(n:etc)" in C is "((recv) >> (8*sizeof(recv) - (n)))".
+		// "recv.high_bits(n:etc)" in C is "((recv) >> (8*sizeof(recv) - (n)))",
+		// except that n can be zero (there are no high bits: the result is 0)
+		// and a C shift by the full width is undefined behavior. Prepend an
+		// "(n) == 0 ? 0 : etc" guard unless n is a non-zero constant.
+		nArg := args[0].AsArg().Value()
+		guarded := false
+		if cv := nArg.ConstValue(); (cv == nil) || (cv.Sign() == 0) {
+			guarded = true
+			b.writes("(((")
+			if err := g.writeExpr(b, nArg, false, depth); err != nil {
+				return err
+			}
+			b.writes(") == 0) ? 0 : ")
+		}
+		defer func() {
+			if guarded {
+				b.writes(")")
+			}
+		}()
 		b.writes("((")
 		if err := g.writeExpr(b, recv, false, depth); err != nil {
 			return err
